@@ -161,8 +161,14 @@ func (nd *node) setModTime(mtime time.Time) {
 
 // setOwner sets the user and group id.
 func (nd *node) setOwner(uid, gid int) {
-	nd.uid = uid
-	nd.gid = gid
+	// A uid or gid of -1 means to not change that value.
+	if uid != -1 {
+		nd.uid = uid
+	}
+
+	if gid != -1 {
+		nd.gid = gid
+	}
 }
 
 // size returns the size of the file.
